@@ -381,7 +381,7 @@ def compare(ctx: Ctx, rep, obs, ans, specs):
 
 def run(ctx: Ctx):
     cl.setup()
-    n = ctx.scale(900, 20000)
+    n = ctx.scale(900, 14000)
     reqs = []
     # the configurations named in DESIGN §1.8 first, then the random stream
     fixed = [
